@@ -184,6 +184,7 @@ func oracle(args []string) {
 	corpus := fs.String("corpus", "", "directory of committed seed cases (run first)")
 	fs.Parse(args)
 	w := hx.Create(filepath.Join(*out, "oracle.jsonl"))
+	gen.AllowBatchOnly = *prop != "C07" && *prop != "C17"
 	todo := corpusCases(*corpus, *prop)
 	r := rng.New(rng.FromEnv(0x0d0d).U64())
 	todo = append(todo, optsdom.Cases(r, *n)...)
@@ -208,6 +209,12 @@ func oracle(args []string) {
 			samples = append(samples, map[string]any{"case": c, "failures": len(fails)})
 		}
 		for _, f := range fails {
+			// one root cause, many paths: with short trace numbers the Reader refuses the Writer's own output
+			// (stored strings ascend, written zero-padded fields do not); wherever a text of such a file is read
+			// back (Reader, POST /files/create with text, GET contents re-read) the failure carries this key
+			if c.Variant == "short-trace-numbers" && strings.Contains(f.What, "must be in ascending order") && strings.Contains(f.What, "00000000") {
+				f.Key = "text:opts:short-trace-numbers:written-order-differs"
+			}
 			js, _ := json.Marshal(failure{Kind: "fail", Key: f.Key, What: f.What, Case: c})
 			w.Printf("%s\n", js)
 		}
